@@ -7,6 +7,7 @@ use crate::scenario::*;
 use crate::world::*;
 use serde_json::{json, Value};
 
+#[derive(Clone)]
 pub struct Run {
     pub sc: Sc,
     pub model: Model,
@@ -214,6 +215,57 @@ impl Run {
         self.step(sc.stake(&u[0], big, None, None, None));
         let (n, l, r) = (self.obs.n, self.obs.l, self.obs.rewards);
         self.step(sc.resume(n, l, r));
+    }
+
+    /// Complete exit and re-entry on a fresh deployment: every holder unstakes everything in one
+    /// batch (batch total == whole supply), the batch is submitted, delivered and withdrawn, then
+    /// somebody stakes into the emptied pool.
+    pub fn exit_scenario(&mut self) {
+        let sc = self.sc.clone();
+        let u = sc.users.clone();
+        let big = 1_000_000u128.max(sc.cfg.min_stake.min(1_000_000_000_000_000_000_000_000) * 10);
+        self.step(sc.resume(0, 0, 0));
+        for x in u.iter().take(3) {
+            self.step(Op::BankMint { addr: x.clone(), denom: sc.s.clone(), amount: big * 3 });
+        }
+        self.step(sc.stake(&u[0], big, None, None, None));
+        self.step(sc.stake(&u[1], big + 7, None, None, None));
+        self.relay_all("ack");
+        let coll = self.obs.collector();
+        let ch = self.obs.channel();
+        self.step(Op::NativeMint { addr: coll.clone(), amount: 999 });
+        self.step(sc.reward(&coll, &ch, 999));
+        self.relay_all("ack");
+        for x in u.iter().take(2) {
+            let bal = self.sc.w.bal(x, &sc.t);
+            if bal > 0 {
+                self.step(sc.unstake(x, bal));
+            }
+        }
+        let due = self.obs.pending.next_time_s;
+        let now = self.sc.w.now_s();
+        if due > now {
+            self.step(Op::Advance { secs: due - now });
+        }
+        self.step(sc.submit(&u[2]));
+        let b = self.obs.batches.iter().find(|b| b.status == "submitted").cloned();
+        if let Some(b) = b {
+            let now = self.sc.w.now_s();
+            if b.next_time_s > now {
+                self.step(Op::Advance { secs: b.next_time_s - now });
+            }
+            let staker = self.obs.staker();
+            self.step(sc.deliver(&staker, &ch, b.id, b.expected));
+            self.step(sc.withdraw(&u[0], b.id));
+            self.step(sc.withdraw(&u[1], b.id));
+        }
+        // rewards are refused while no LST exists; then the first stake after the complete exit
+        self.step(Op::NativeMint { addr: coll.clone(), amount: 500 });
+        self.step(sc.reward(&coll, &ch, 500));
+        self.step(Op::NativeBurn { addr: coll.clone(), amount: 500 });
+        self.step(sc.stake(&u[2], big, None, None, None));
+        self.relay_all("ack");
+        self.model.count("exit_scenario");
     }
 
     pub fn relay_last(&mut self, oc: &str) {
